@@ -1478,8 +1478,11 @@ class SchemaElementNode(ElementNode):
 
     @property
     def path(self) -> str:
-        if not hasattr(self, 'type'):
-            return '/'
+        if not hasattr(self.value, 'type'):
+            return '/'  # the schema node
+        elif isinstance(self.parent, SchemaElementNode) and not hasattr(self.parent.value, 'type'):
+            # a global element: the schema node's path is already the leading slash
+            return f"/{self.name_path}[{self.parent.get_child_position(self)}]"
         return super().path
 
     @property
